@@ -72,6 +72,7 @@ class Recorder:
     def __init__(self, prop, tier, seed, shard=0, nshards=1, budget_s=60.0):
         self.prop, self.tier, self.seed, self.shard, self.nshards = prop, tier, seed, shard, nshards
         self.t0 = time.monotonic()
+        self.c0 = time.process_time()
         self.budget_s = budget_s
         self.evaluations = 0
         self.sigs = set()
@@ -107,7 +108,11 @@ class Recorder:
         self.notes[key] = jsonable(value)
 
     def time_left(self):
-        return self.budget_s - (time.monotonic() - self.t0)
+        # the budget is counted in CPU seconds of this shard, so that a loaded machine does not silently shrink the
+        # workload; wall time is capped separately at 2.5x the budget (the parent's watchdog is 3x + 120 s)
+        cpu = time.process_time() - self.c0
+        wall = time.monotonic() - self.t0
+        return min(self.budget_s - cpu, 2.5 * self.budget_s - wall)
 
     def out_of_time(self):
         return self.time_left() <= 0
